@@ -2,3 +2,4 @@ pub mod expr;
 pub mod isa;
 pub mod program;
 pub mod refasm;
+pub mod formats;
